@@ -3,6 +3,7 @@
 // normal return or a C++ exception. Anything else (sanitizer report, fatal signal, std::terminate, step budget
 // exceeded, watchdog) is a violation keyed by template and kind.
 #include "dsp.h"
+#include <limits>
 #include "verif-hooks.h"
 
 #include <fstream>
@@ -86,11 +87,32 @@ static void reg(const char* name, std::function<void(V&)> fn) {
     g_tmpl.push_back(std::move(t));
 }
 
+//array contents: usually finite; in "poisoned" cases some entries are NaN, +-Inf, +-DBL_MAX or denormal - arrays of the declared
+//element type may hold any double, and no content may make a call touch memory it does not own or loop for ever
+static int g_poison = 0;
+static double poison_value(vh::Rng& r) {
+    switch (r.below(7)) {
+    case 0: return std::numeric_limits<double>::quiet_NaN();
+    case 1: return std::numeric_limits<double>::infinity();
+    case 2: return -std::numeric_limits<double>::infinity();
+    case 3: return std::numeric_limits<double>::max();
+    case 4: return -std::numeric_limits<double>::max();
+    case 5: return std::numeric_limits<double>::denorm_min();
+    default: return -0.0;
+    }
+}
+
 static arr_real AR(int n, uint64_t seed = 1) {
     vh::Rng r(seed + 77);
     arr_real x(n);
     for (int i = 0; i < n; ++i) {
         x[i] = r.gauss();
+    }
+    if (g_poison && n > 0) {
+        const int cnt = (g_poison == 1) ? 1 : int(r.range(1, std::max(1, n / 3)));
+        for (int k = 0; k < cnt; ++k) {
+            x[int(r.below(uint64_t(n)))] = (g_poison == 1) ? std::numeric_limits<double>::quiet_NaN() : poison_value(r);
+        }
     }
     return x;
 }
@@ -100,6 +122,17 @@ static arr_cmplx AC(int n, uint64_t seed = 1) {
     arr_cmplx x(n);
     for (int i = 0; i < n; ++i) {
         x[i] = cmplx_t{r.gauss(), r.gauss()};
+    }
+    if (g_poison && n > 0) {
+        const int cnt = (g_poison == 1) ? 1 : int(r.range(1, std::max(1, n / 3)));
+        for (int k = 0; k < cnt; ++k) {
+            const int at = int(r.below(uint64_t(n)));
+            if (r.coin()) {
+                x[at].re = (g_poison == 1) ? std::numeric_limits<double>::quiet_NaN() : poison_value(r);
+            } else {
+                x[at].im = (g_poison == 1) ? std::numeric_limits<double>::quiet_NaN() : poison_value(r);
+            }
+        }
     }
     return x;
 }
@@ -822,15 +855,17 @@ static void register_templates() {
         });
     });
     reg("median", [](V& v) {
-        const int n = v.pick({1, 2, 3, 4, 9});
-        const int nx = v.pick({0, 1, 2, 3, 8, 9, 10, 50});
+        const int n = v.pick({1, 2, 3, 4, 5, 6, 7, 8, 9, 12, 16, 33});
+        const int nx = v.pick({0, 1, 2, 3, 8, 9, 10, 50, 300});
+        const int rep = v.choose(8);
         v.run([=] {
-            arr_real x = AR(nx);
+            arr_real x = AR(nx, 1000 + uint64_t(rep));
             tolerate([&] { use(dl::medfilt(x, n)); });
             dl::MedianFilter f(n, 1.5);
             use(f.process(x));
-            use(f(AR(1)));
+            use(f(AR(1, uint64_t(rep))));
             use(f(x));
+            use(f.process(AR(nx / 2 + 1, 2000 + uint64_t(rep))));
             use(double(f.order()));
         });
     });
@@ -1333,7 +1368,9 @@ static void run_case(const Tmpl& t, uint64_t code, const std::string& errfile) {
     if (v.dup || !v.body) {
         return;
     }
-    vh::begin_case(t.name.c_str(), "variant=%llu:%s", (unsigned long long)code, v.text.c_str());
+    //every third variant runs with one NaN in each generated array, every other third with several non-finite / extreme entries
+    g_poison = int((code + (code >> 7)) % 3);
+    vh::begin_case(t.name.c_str(), "variant=%llu poison=%d:%s", (unsigned long long)code, g_poison, v.text.c_str());
     Outcome5 o = run_child(v.body, errfile, 30);
     if (o.res == Res::Hang) {
         //inconclusive once: re-run in a fresh process before calling it a hang
@@ -1342,6 +1379,9 @@ static void run_case(const Tmpl& t, uint64_t code, const std::string& errfile) {
     vh::Hasher h;
     h.s(t.name).u64(code);
     vh::count(h.get(), true);
+    vh::obs_add(g_poison ? "cases_with_non_finite_array_entries" : "cases_with_finite_arrays");
+    const int poison_used = g_poison;
+    g_poison = 0;
     switch (o.res) {
     case Res::Returned:
         vh::obs_add("outcome_returned");
@@ -1356,7 +1396,8 @@ static void run_case(const Tmpl& t, uint64_t code, const std::string& errfile) {
     case Res::BadOutcome:
         vh::obs_add("outcome_bad");
         vh::violation(vh::fmt("C05/%s/%s", t.name.c_str(), o.kind.c_str()),
-                      vh::fmt("template %s variant %llu (choices:%s) ended with %s\n", t.name.c_str(), (unsigned long long)code, v.text.c_str(), o.kind.c_str()) + o.detail);
+                      vh::fmt("template %s variant %llu (choices:%s; array contents: %s) ended with %s\n", t.name.c_str(), (unsigned long long)code, v.text.c_str(),
+                              poison_used == 0 ? "finite" : (poison_used == 1 ? "one NaN per array" : "several non-finite / extreme entries"), o.kind.c_str()) + o.detail);
         break;
     }
 }
@@ -1426,6 +1467,8 @@ int main(int argc, char** argv) {
         if (bodies.empty()) {
             continue;
         }
+        g_poison = int(r.below(3));
+        text += vh::fmt("[poison=%d]", g_poison);
         vh::begin_case("program", "%s", text.c_str());
         auto all = [bodies] {
             for (const auto& b : bodies) {
@@ -1443,6 +1486,7 @@ int main(int argc, char** argv) {
         h.s("prog").s(text);
         vh::count(h.get(), true);
         vh::obs_add("programs_run");
+        g_poison = 0;
         if (o.res == Res::Hang) {
             vh::violation("C05/program/hang", "program [" + text + "] did not finish");
         } else if (o.res == Res::BadOutcome) {
